@@ -2297,6 +2297,21 @@ GENERATOR_ENGINE_PROBES = [
      "0=1;.1=3;.2=4;.3=7;"),
     ("foreach-in-while", 'function ww($a) { $i = 0; while ($i < 2) { foreach ($a as $k => $v) { yield "$i$k"; } $i++; } } ' + GEN_DECL + 'show(ww(["x" => 1, "y" => 2]));',
      "0=0x;1=0y;2=1x;3=1y;"),
+    ("generator-return", 'function g() { yield 1; yield 2; return 5; } $x = g(); foreach ($x as $v) { echo "$v;"; } echo "ret=", $x->getReturn(), "|"; '
+                         'function h($n) { foreach ([1, 2, 3] as $v) { if ($v > $n) { return "stop$v"; } yield $v; } return "end"; } '
+                         'function use_h() { $t = h(2); foreach ($t as $v) { echo "$v;"; } return $t->getReturn(); } echo use_h(), "|after";',
+     "1;2;ret=5|1;2;stop3|after"),
+    # foreach over string-keyed arrays (iterator-backed, outside the typed core): continue / continue 2 / break on every position
+    ("assoc-continue", '$a = ["p" => 1, "q" => 2, "r" => 3, "s" => 4]; foreach ([1, 2, 3, 4, 9] as $skip) { foreach ($a as $k => $v) { if ($v == $skip) { continue; } echo "$k$v"; } echo "|"; }',
+     "q2r3s4|p1r3s4|p1q2s4|p1q2r3|p1q2r3s4|"),
+    ("assoc-continue2", '$a = ["p" => 1, "q" => 2, "r" => 3]; foreach ($a as $k => $v) { foreach ([1, 2] as $j) { if ($j == 2 && $v == 2) { continue 2; } echo "$k$j"; } echo "."; } '
+                        'echo "|"; foreach ($a as $k => $v) { switch ($v) { case 1: continue 2; case 2: echo "two"; break; default: echo "d"; } echo "$k;"; }',
+     "p1p2.q1r1r2.|twoq;dr;"),
+    ("assoc-break-nested", '$a = ["p" => 1, "q" => 2, "r" => 3]; foreach ($a as $k => $v) { foreach ($a as $k2 => $v2) { if ($v2 > $v) { break; } if ($v2 == 1 && $v == 3) { continue; } echo "$k$k2 "; } } '
+                           'echo "|"; foreach ($a as $k => $v) { if ($v == 2) { break; } echo $k; } echo "|"; foreach ($a as $v) { if ($v % 2) { continue; } echo $v; }',
+     "pp qp qq rq rr |p|2"),
+    ("assoc-continue-in-function", 'function f($a, $skip) { $out = ""; foreach ($a as $k => $v) { if ($k == $skip) { continue; } $out = $out . $k; } return $out; } '
+                                   '$a = ["x" => 1, "y" => 2, "z" => 3]; echo f($a, "x"), "|", f($a, "y"), "|", f($a, "z"), "|", f($a, "none");', "yz|xz|xy|xyz"),
     ("switch-eq", SWITCH_EQ_PROBE, "." * (len(SWITCH_EQ_VALUES) ** 2)),
     ("two-generators", GEN_DECL + '$x = kv([1, 2]); $y = kv(["a" => 8, "b" => 9]); foreach ($x as $k => $v) { echo "$k=$v;"; foreach ($y as $k2 => $v2) { echo "$k2=$v2;"; } }',
      "0=1;a=8;b=9;1=2;"),
@@ -2494,7 +2509,7 @@ def main(ck):
         gsrcs, gres = run_impl(binary, None, ck, srcs=["<?php\n" + r[1] + "\n" for r in gens])
         for (name, code, exp), src, o in zip(gens, gsrcs, gres):
             if o.get("outcome") != "ok" or o.get("out") != exp:
-                ck.violation("generator:%s" % name, {"case": {"generator_probe": name}, "php": src, "impl_out": o, "expected_out": exp,
+                ck.violation(("engine:%s" if name.startswith(("assoc", "switch")) else "generator:%s") % name, {"case": {"generator_probe": name}, "php": src, "impl_out": o, "expected_out": exp,
                              "clause": "a yield inside a loop suspends and resumes that loop (engine-only probe, generators are outside the Coq core)"})
     ck.cov["generator_engine_probes"] = len(gens)
 
